@@ -23,15 +23,47 @@ pub fn record(pool_path: &str, out: &mut dyn std::io::Write, seed: u64, n_events
         pool.push((v["i"].as_i64().unwrap(), v["g"].clone(), g));
     }
     assert!(!pool.is_empty(), "empty pool");
+    // "wild" operands: outside the domain in which the specification knows the true matrix (mixed-dimension
+    // collections with a point member far outside the envelope of the others, overlapping members, nested
+    // collections, empty geometries).  For them the specification demands only what C17 states: the prepared
+    // answer equals the answer of relate on the plain geometries.
+    let ncat = pool.len();
+    let far = [(16.0, 16.0), (-4.0, 4.0), (4.0, -8.0), (20.0, 0.0)];
+    let mut wild: Vec<(i64, Value, Geometry<f64>)> = vec![];
+    for (k, f) in far.iter().enumerate() {
+        let pt = Geometry::Point(geo::Point::new(f.0, f.1));
+        wild.push((0, Value::Null, pt.clone()));
+        wild.push((0, Value::Null, Geometry::Line(geo::Line::new(geo::coord! {x: f.0, y: f.1}, geo::coord! {x: f.0 + 4.0, y: f.1 + 4.0 * (k % 2) as f64}))));
+        wild.push((0, Value::Null, Geometry::Rect(geo::Rect::new(geo::coord! {x: f.0, y: f.1}, geo::coord! {x: f.0 + 4.0, y: f.1 + 4.0}))));
+        for _ in 0..6 {
+            let m = pool[rng.gen_range(0..ncat)].2.clone();
+            let m2 = pool[rng.gen_range(0..ncat)].2.clone();
+            wild.push((0, Value::Null, Geometry::GeometryCollection(geo::GeometryCollection::new_from(vec![m.clone(), pt.clone()]))));
+            wild.push((0, Value::Null, Geometry::GeometryCollection(geo::GeometryCollection::new_from(vec![pt.clone(), m.clone(), m2.clone()]))));
+            wild.push((0, Value::Null, Geometry::GeometryCollection(geo::GeometryCollection::new_from(vec![
+                Geometry::GeometryCollection(geo::GeometryCollection::new_from(vec![m2, Geometry::MultiPoint(geo::MultiPoint::new(vec![geo::Point::new(f.0, f.1), geo::Point::new(2.0, 2.0)]))])), m]))));
+        }
+    }
+    wild.push((0, Value::Null, Geometry::GeometryCollection(geo::GeometryCollection::new_from(vec![]))));
+    wild.push((0, Value::Null, Geometry::LineString(geo::LineString::new(vec![]))));
+    wild.push((0, Value::Null, Geometry::Polygon(geo::Polygon::new(geo::LineString::new(vec![]), vec![]))));
+    wild.push((0, Value::Null, Geometry::MultiPoint(geo::MultiPoint::new(vec![]))));
+    for (i, w) in wild.into_iter().enumerate() {
+        let mut j = gj::geometry_to_json(&w.2);
+        j["wild"] = json!(true);
+        pool.push((-(i as i64) - 1, j, w.2));
+    }
+    let nwild = pool.len() - ncat;
+    let pick = |rng: &mut StdRng| if rng.gen_range(0..4) == 0 { ncat + rng.gen_range(0..nwild) } else { rng.gen_range(0..ncat) };
     // a working set of a few pool entries so that the same geometries meet again and again
-    let mut work: Vec<usize> = (0..8).map(|_| rng.gen_range(0..pool.len())).collect();
+    let mut work: Vec<usize> = (0..8).map(|_| pick(&mut rng)).collect();
     let mut handles: Vec<(usize, PreparedGeometry<'static, Geometry<f64>>)> = vec![];
     let mut seq = 0usize;
     while seq < n_events {
         seq += 1;
         if seq % 60 == 0 {
             handles.clear();
-            work = (0..8).map(|_| rng.gen_range(0..pool.len())).collect();
+            work = (0..8).map(|_| pick(&mut rng)).collect();
             writeln!(out, "{}", json!({"name":"reset","seq":seq})).unwrap();
             continue;
         }
@@ -57,7 +89,10 @@ pub fn record(pool_path: &str, out: &mut dyn std::io::Write, seed: u64, n_events
             (false, false) => unreachable!(),
         });
         let im = r.unwrap_or_else(|p| format!("PANIC: {p}"));
-        let mut e = json!({"name":"relate","seq":seq,"im":im});
+        // the same operands, plain: what C17 compares with
+        let (ga, gb) = (if pa { &pool[handles[ha].0].2 } else { &pool[wa].2 }, if pb { &pool[handles[hb].0].2 } else { &pool[wb].2 });
+        let plain = guard(|| im_string(&ga.relate(gb))).unwrap_or_else(|p| format!("PANIC: {p}"));
+        let mut e = json!({"name":"relate","seq":seq,"im":im,"plain":plain});
         e["a"] = if pa { json!({"k":"prep","h":ha + 1}) } else { json!({"k":"plain","ci":pool[wa].0,"g":pool[wa].1}) };
         e["b"] = if pb { json!({"k":"prep","h":hb + 1}) } else { json!({"k":"plain","ci":pool[wb].0,"g":pool[wb].1}) };
         if pa { e["fpa"] = json!(fp(&handles[ha].1)); }
